@@ -107,6 +107,22 @@ def corpus():
                 return [m.to_er7(), m.to_er7() == msg2]
             calls.append(('parse_message_own_escape/%s/%d' % (v, level), pe))
 
+            if level == 2:
+                # a builder that overrides the datatype of a named, still empty component (TOLERANT allows it), then reads a
+                # fresh field of the same datatype: what one object was told is no business of any other object or thread
+                def ov(v=v):
+                    named = [(d, c) for d in tables.complex_datatypes(v) for c in tables.components(v, d)
+                             if c.ok and c.card[1] != 0 and c.kind == 'sequence' and not tables.is_base(v, c.datatype)]
+                    d, c = named[len(named) // 2]
+                    others = [x for x in tables.complex_datatypes(v) if x != c.datatype]
+                    comp = core.Component(c.name, version=v, validation_level=2)
+                    comp.datatype = others[len(others) // 3]
+                    fresh = core.Component(c.name, version=v, validation_level=2)
+                    sub = tables.components(v, c.datatype)[0]
+                    setattr(fresh, sub.name.lower(), 'q')
+                    return [comp.datatype, fresh.datatype, fresh.to_er7(), [x.name for x in fresh.children.list]]
+                calls.append(('override_component_datatype/%s/2' % v, ov))
+
             def ps(v=v, level=level, i=i):
                 s = parser.parse_segment('PID|1||12%d^^^X&1.2&ISO^MR~456||DOE^JOHN|||M' % i, version=v,
                                          validation_level=level)
@@ -304,7 +320,9 @@ def cold_calls(v, level=2):
 
     def A():
         s = parser.parse_segment('PID|1||123^^^X&1.2&ISO^MR~456||DOE^JOHN|||M', version=v, validation_level=level)
-        return [s.to_er7(), [str(e) for e in s.validate(return_errors=True).errors]]
+        from .. import treeinv
+        return [s.to_er7(), [str(e) for e in s.validate(return_errors=True).errors],
+                [[e.__dict__.get('name'), e.__dict__.get('_datatype')] for e in treeinv.walk(s)]]
 
     def B():
         out = []
@@ -315,6 +333,21 @@ def cold_calls(v, level=2):
         out.append(s.to_er7())
         return out
     return A, B
+
+
+def override_call(v):
+    """a builder overriding the datatype of a named, still empty component that call A uses (CX_4 where the version has it):
+    something one object is told, no business of any other call"""
+    from hl7apy import core
+
+    def C():
+        names = [c.name for c in tables.components(v, 'CX')] if 'CX' in tables.complex_datatypes(v) else []
+        if 'CX_4' not in names:
+            return None
+        comp = core.Component('CX_4', version=v, validation_level=2)
+        comp.datatype = 'CE' if 'CE' in tables.complex_datatypes(v) else 'CWE'
+        return comp.datatype
+    return C
 
 
 def cold_main(argv):
@@ -332,7 +365,10 @@ def cold_main(argv):
         elif spec.get('j'):
             pl = {0: {'anchor': {spec['j']}}}
         out, bt, hung = sched.run_pair(A, B, pl)
-        res.append({'version': v, 'out': out, 'trace': [list(t) for t in bt.trace], 'anchor_events': bt.acount,
+        # then, in the same process: the override in one thread, call A in another
+        out2, bt2, hung2 = sched.run_pair(override_call(v), A, {})
+        res.append({'version': v, 'out': out, 'after_override': out2[1], 'hung2': hung2,
+                    'trace': [list(t) for t in bt.trace], 'anchor_events': bt.acount,
                     'distinct_anchor_locations': len(bt.first_seen[0]),
                     'blocked': bt.blocked, 'hung': hung, 'was_loaded': loaded})
     json.dump(res, open(argv[1], 'w'))
@@ -388,6 +424,12 @@ def run_cold(spec, rec):
                                                                              'order': order},
                                   {'sequential': str(ref[v])[:250], 'concurrent': str(r['out'])[:250],
                                    'trace': r['trace'][:3]})
+                if not r.get('hung2'):
+                    rec.count('calls_compared_after_an_override_in_another_thread')
+                    if r.get('after_override') != ref[v][0]:
+                        rec.violation('result-differs-under-threads:after-datatype-override-in-another-thread',
+                                      {'kind': 'cold', 'version': v, kind_: j, 'order': order},
+                                      {'sequential': str(ref[v][0])[:250], 'concurrent': str(r.get('after_override'))[:250]})
                 for t in r['trace'][:2]:
                     rec.seen('cold_switch_points', '%s:%s' % (t[1], t[2]))
     finally:
